@@ -44,7 +44,9 @@ def do_action(psutil, o, a):
 
 # events that only ask: whatever the circumstances (permission faults included) they cannot change which held objects are
 # equal, nor any hash
-PURE = ("q", "create_time", "boot_time", "is_running", "os_enter", "os_exit", "iter")
+PURE = ("q", "create_time", "boot_time", "is_running", "os_enter", "os_exit", "iter", "sys")
+# other system-wide functions that read the same kernel tables as the identity code (/proc/stat ...)
+SYS_CALLS = ("cpu_stats", "cpu_times", "cpu_count")
 
 EXPECT = {"kill": ("kill", (9,)), "terminate": ("kill", (15,)), "suspend": ("kill", (19,)),
           "resume": ("kill", (18,)), "sig64": ("kill", (64,)), "sig0": ("kill", (0,)), "nice5": ("setpriority", (5,)),
@@ -102,7 +104,7 @@ def mk_popen(ps, pid):
 
 class Cfg:
     def __init__(self, seed=0, slots=("A", "B"), max_objs=2, actions=(), clock=False,
-                 queries=("name",), numeric=False, use_iter=True, use_exit=True, max_denies=0, max_faults=0, create_time_event=False, oneshot=False, popen=False,
+                 queries=("name",), numeric=False, use_iter=True, use_exit=True, max_denies=0, max_faults=0, create_time_event=False, sys_calls=(), oneshot=False, popen=False,
                  own_pid=None, iterhold=False, comm=None):
         self.seed = seed
         base = 1000 + (seed % 9) * 13
@@ -121,6 +123,7 @@ class Cfg:
         if own_pid:
             self.pid["A"] = own_pid       # the pid of the interpreter that imported psutil
         self.oneshot = oneshot            # enter/exit of a oneshot() block on object 0
+        self.sys_calls = sys_calls        # system-wide functions as events (clock configurations only)
         self.create_time_event = create_time_event     # create_time() queries even without clock events
         self.max_faults = max_faults      # one-shot resource failures (EMFILE) of the next open() of /proc/<pid>/stat
         self.max_denies = max_denies      # permission faults: /proc/<pid>/stat of ONE incarnation becomes unreadable
@@ -198,6 +201,7 @@ class Exec:
                     ev.append(["iterhold", s])
         if c.clock:
             ev += [["boot_time"], ["step-"], ["tick100"], ["step+"]]
+            ev += [["sys", f] for f in c.sys_calls]
         if c.clock or c.create_time_event:
             for i in range(len(self.objs)):
                 ev.append(["create_time", i])
@@ -329,6 +333,10 @@ class Exec:
             out = outcome(ps.boot_time)
             if out != ("ok", float(w.btime)):
                 self.viol("boot_time", "boot_time() -> %r, kernel publishes %r" % (out, w.btime))
+        elif k == "sys":
+            out = outcome(getattr(ps, ev[1]))
+            if out[0] != "ok":
+                self.viol("sys-call-raised:%s" % ev[1], repr(out))
         elif k == "create_time":
             out = outcome(self.objs[ev[1]].create_time)
             lab = "create_time:%s" % (out[0] if out[0] == "ok" else out[1])
